@@ -52,4 +52,14 @@ theorem bracket_method_table :
        ("![", "]", "subproc_captured_hiddenobject"), ("!(", ")", "subproc_captured_object")] ∧
     XV.Gen.procCmdTable = [("@(", "proc_pyexpr"), ("@$(", "proc_inject")] := by decide
 
+/-- C05: every alternative that starts an environment / search-path / help construct calls the documented builder with the
+    documented expression context, and these are ALL the alternatives that call those builders; `||` / `or` build `Or`,
+    `&&` / `and` build `And` (tables read off the regenerated IR's actions) -/
+theorem xonsh_builder_table :
+    XV.Gen.xonshBuilderTable =
+      [("primary", "gathered", "expand_help", "Load"), ("env_atom", "$", "expand_env_name", "Load"), ("env_atom", "${", "expand_env_expr", "Load"),
+       ("proc_cmd", "!STRING", "expand_help", "Load"), ("search_path", "SEARCH_PATH", "expand_search_path", "Load"),
+       ("target_with_star_atom", "$", "expand_env_name", "Store"), ("target_with_star_atom", "${", "expand_env_expr", "Store")] ∧
+    XV.Gen.boolOpTable = [("disjunction", "or,||", "Or"), ("conjunction", "&&,and", "And")] := by decide
+
 end XVC
